@@ -345,8 +345,11 @@ ASSUMPTIONS = [
     "one file system",
     "no file of the working directory is named like a hex digest or like a sharded path "
     "(cwd-relative fallbacks of the path lookups)",
-    "history induction: per-call obligations lift to every finite call sequence (schema stated "
-    "in DESIGN 4.3, not machine-checked here)",
+    "history induction: base case (lemma/fresh-store) and step cases (lemma/<call>/inv-*) are "
+    "obligations of C05; the induction principle that lifts them to every finite call sequence is "
+    "stated in DESIGN, not machine-checked",
+    "module-level constants are evaluated at each use (immutable values only); decorators other "
+    "than staticmethod/classmethod/property/contextmanager/lru_cache make a run undecided",
     "no asynchronous exceptions (KeyboardInterrupt, MemoryError)",
 ]
 
